@@ -87,7 +87,10 @@ fn gen_desc<S: Sut>(w: &World<S>, g: &mut G, node: usize, tag: u32) -> Desc {
         Family::VClock => Desc::Inc,
         Family::GSet => Desc::Put(rng.below(6) as u64),
         Family::MaxReg | Family::MinReg => Desc::Put(rng.below(100) as u64),
-        Family::Lww => Desc::Lww { v: 100 + tag as u64, reuse_marker: cfg.misuse && rng.chance(1, 3) },
+        Family::Lww => Desc::Lww {
+            v: if cfg.dup_values && rng.chance(1, 2) { 1 + rng.below(2) as u64 } else { 100 + tag as u64 },
+            reuse_marker: cfg.misuse && rng.chance(1, 3),
+        },
         Family::List => {
             let len = seq_len(w, node);
             let v = 100 + tag as u64;
